@@ -86,7 +86,7 @@ AnchorOK(op, s, i, org) ==
 IsAnchor(op) == op \in {"beg","bol","end","endz","eol","start","wb","nwb","ewb","newb","awb","nawb"}
 
 \* ---------------------------------------------------------------- captures
-NumGroups(p) == LET gs == {p[k].g : k \in {j \in 1..Len(p) : p[j].op = "grp"}} IN
+NumGroups(p) == LET gs == {p[k].g : k \in {j \in 1..Len(p) : p[j].op \in {"grp", "bal"}}} \cup {p[k].ug : k \in {j \in 1..Len(p) : p[j].op = "bal"}} IN
                 IF gs = {} THEN 0 ELSE CHOOSE m \in gs : \A x \in gs : x <= m
 EmptyCaps(p) == [g \in 1..NumGroups(p) |-> <<>>]
 
@@ -130,6 +130,8 @@ AttemptE(p, s, i0, org, rtl, ecma) ==
           [] n.op = "grp" ->
                IF n.g = 0 THEN Run(<<F(n.kids[1], d)>> \o rest, i, caps)
                ELSE Run(<<F(n.kids[1], d), [t |-> "endg", id |-> f.id, cnt |-> 0, st |-> i, d |-> d]>> \o rest, i, caps)
+          [] n.op = "bal" ->    \* balancing group: the body, then the transfer (frame "endb")
+               Run(<<F(n.kids[1], d), [t |-> "endb", id |-> f.id, cnt |-> 0, st |-> i, d |-> d]>> \o rest, i, caps)
           [] n.op = "look" ->
                LET r == Run(<<F(n.kids[1], FALSE)>>, i, caps) IN
                IF r.ok THEN Run(rest, i, r.caps) ELSE Fail
@@ -160,6 +162,22 @@ AttemptE(p, s, i0, org, rtl, ecma) ==
                LET r == Run(<<F(n.kids[1], d)>>, i, caps) IN
                IF r.ok THEN Run(<<F(n.kids[2], d)>> \o rest, i, r.caps)
                ELSE Run(<<F(n.kids[3], d)>> \o rest, i, caps)
+      ELSE IF f.t = "endb" THEN
+        \* (?<cap-uncap>..): fails unless uncap holds a capture; pops uncap's last capture and, when cap is given, records
+        \* the innermost interval between the popped capture and the text this group matched
+        LET n  == p[f.id]
+            a  == IF f.st < i THEN f.st ELSE i          \* this group's own interval [a, b]
+            b  == IF f.st < i THEN i ELSE f.st
+            old == caps[n.ug]
+        IN IF old = <<>> THEN Fail
+           ELSE LET s2 == old[Len(old)][1]
+                    e2 == s2 + old[Len(old)][2]
+                    new == IF a >= e2 THEN <<e2, a - e2>>
+                           ELSE IF b <= s2 THEN <<b, s2 - b>>
+                           ELSE LET lo == IF s2 > a THEN s2 ELSE a  hi == IF b > e2 THEN e2 ELSE b IN <<lo, hi - lo>>
+                    caps1 == [caps EXCEPT ![n.ug] = SubSeq(@, 1, Len(@) - 1)]
+                    caps2 == IF n.g = 0 THEN caps1 ELSE [caps1 EXCEPT ![n.g] = Append(@, new)]
+                IN Run(rest, i, caps2)
       ELSE IF f.t = "endg" THEN
         LET n  == p[f.id]
             lo == IF f.st < i THEN f.st ELSE i
